@@ -1,3 +1,133 @@
 // ---------------------------------------------------------------------------
 // lemmas/mem_region.rs -- proof-only lemmas of unit `mem_region` (property C05).  All proved.
 // ---------------------------------------------------------------------------
+
+/// vstd states the order of `BTreeMap::iter()` as `increasing_seq` of the key projection (a `cmp_spec` statement);
+/// for i64 keys that is `<`.  Broadcast, so that a loop invariant `mr_keys_sorted(it.seq())` holds on loop entry.
+pub broadcast proof fn lemma_mr_iter_sorted<V>(s: Seq<(&i64, &V)>)
+    requires vstd::std_specs::btree::increasing_seq(s.map_values(|kv: (&i64, &V)| *kv.0))
+    ensures #[trigger] mr_keys_sorted(s)
+{
+    let ks = s.map_values(|kv: (&i64, &V)| *kv.0);
+    vstd::std_specs::btree::axiom_increasing_seq_meaning(ks);
+    assert forall |i: int, j: int| 0 <= i < j < s.len() implies *(#[trigger] s[i]).0 < *(#[trigger] s[j]).0 by {
+        assert(ks[i] == *s[i].0); assert(ks[j] == *s[j].0);
+        assert(vstd::std_specs::cmp::OrdSpec::cmp_spec(&ks[i], &ks[j]) == core::cmp::Ordering::Less);
+    }
+}
+
+/// position of an offset relative to the ascending iteration s of the map m
+pub proof fn lemma_mr_visited<V>(s: Seq<(&i64, &V)>, m: Map<i64, V>, i: int, k: i64)
+    requires mr_iter_of(s, m), 0 <= i < s.len(), m.contains_key(k)
+    ensures
+        mr_iter_visited(s, i, k) <==> k < *s[i].0,
+        mr_iter_visited(s, i + 1, k) <==> k <= *s[i].0,
+        mr_iter_visited(s, s.len() as int, k),
+{
+    let j = choose |j: int| 0 <= j < s.len() && *(#[trigger] s[j]).0 == k;
+    assert(*s[j].0 == k);
+    if j < i { assert(*s[j].0 < *s[i].0); }
+    if j > i { assert(*s[i].0 < *s[j].0); }
+    if mr_iter_visited(s, i, k) {
+        let j2 = choose |j2: int| 0 <= j2 < i && *(#[trigger] s[j2]).0 == k;
+        assert(*s[j2].0 < *s[i].0);
+    }
+    if mr_iter_visited(s, i + 1, k) {
+        let j2 = choose |j2: int| 0 <= j2 < i + 1 && *(#[trigger] s[j2]).0 == k;
+        if j2 < i { assert(*s[j2].0 < *s[i].0); }
+    }
+}
+
+/// THE CORE OF merge_inner: for the offset x of the zipped map, with mre = the largest end of a cell (of either
+/// input) at a smaller offset, the three tests of the code decide the merge rule of the property.
+pub proof fn lemma_mr_merge_step<T: AbstractDomain + SizedDomain + HasTop>(a: Map<i64, T>, b: Map<i64, T>, x: i64, mre: int)
+    requires
+        mr_domain_ok::<T>(), mr_cells_ok(a), mr_cells_ok(b),
+        a.contains_key(x) || b.contains_key(x),
+        forall |k: i64| #[trigger] a.contains_key(k) && k < x ==> k + a[k].bytesize_spec() <= mre,
+        forall |k: i64| #[trigger] b.contains_key(k) && k < x ==> k + b[k].bytesize_spec() <= mre,
+        mre == i64::MIN
+            || (exists |k: i64| #[trigger] a.contains_key(k) && k < x && k + a[k].bytesize_spec() == mre)
+            || (exists |k: i64| #[trigger] b.contains_key(k) && k < x && k + b[k].bytesize_spec() == mre),
+    ensures
+        ({
+            let z = mr_zip_entry(a, b, x);
+            let e = mr_range_end(x as int, z.0, z.1);
+            (x >= mre && mr_no_later(a, x, e) && mr_no_later(b, x, e) && mr_merge_pair(z.0, z.1) is Some) <==> mr_merge_keeps(a, b, x)
+        }),
+        mr_merge_pair(mr_zip_entry(a, b, x).0, mr_zip_entry(a, b, x).1) is Some
+            ==> mr_merge_pair(mr_zip_entry(a, b, x).0, mr_zip_entry(a, b, x).1)->Some_0 == mr_merge_val(a, b, x),
+{
+    let z = mr_zip_entry(a, b, x);
+    let e = mr_range_end(x as int, z.0, z.1);
+    if a.contains_key(x) && b.contains_key(x) {
+        if a[x].bytesize_spec() == b[x].bytesize_spec() {
+            assert(x >= mre);
+            assert(mr_no_later(a, x, e));
+            assert(mr_no_later(b, x, e));
+        }
+    } else if a.contains_key(x) {
+        lemma_mr_merge_single(a, b, x, mre);
+    } else {
+        lemma_mr_merge_single(b, a, x, mre);
+    }
+}
+
+/// the case "only one input holds a cell at x" (c holds it, d does not)
+pub proof fn lemma_mr_merge_single<T: AbstractDomain + SizedDomain + HasTop>(c: Map<i64, T>, d: Map<i64, T>, x: i64, mre: int)
+    requires
+        mr_domain_ok::<T>(), mr_cells_ok(c), mr_cells_ok(d),
+        c.contains_key(x), !d.contains_key(x),
+        forall |k: i64| #[trigger] c.contains_key(k) && k < x ==> k + c[k].bytesize_spec() <= mre,
+        forall |k: i64| #[trigger] d.contains_key(k) && k < x ==> k + d[k].bytesize_spec() <= mre,
+        mre == i64::MIN
+            || (exists |k: i64| #[trigger] c.contains_key(k) && k < x && k + c[k].bytesize_spec() == mre)
+            || (exists |k: i64| #[trigger] d.contains_key(k) && k < x && k + d[k].bytesize_spec() == mre),
+    ensures
+        (x >= mre && mr_no_later(c, x, x + c[x].bytesize_spec()) && mr_no_later(d, x, x + c[x].bytesize_spec()))
+            <==> mr_free(d, x as int, mr_size(c[x])),
+{
+    let sz = c[x].bytesize_spec() as int;
+    assert(mr_no_later(c, x, x + sz));
+    if x >= mre && mr_no_later(d, x, x + sz) {
+        assert forall |j: i64| #[trigger] d.contains_key(j) implies !mr_cell_meets(d, j, x as int, sz) by {
+            if j < x { } else { assert(j > x); }
+        }
+    }
+    if mr_free(d, x as int, sz) {
+        assert forall |k: i64| #[trigger] d.contains_key(k) && k > x implies k >= x + sz by {
+            assert(!mr_cell_meets(d, k, x as int, sz));
+        }
+        if mre != i64::MIN {
+            if exists |k: i64| #[trigger] c.contains_key(k) && k < x && k + c[k].bytesize_spec() == mre {
+            } else {
+                let k = choose |k: i64| #[trigger] d.contains_key(k) && k < x && k + d[k].bytesize_spec() == mre;
+                assert(!mr_cell_meets(d, k, x as int, sz));
+            }
+        }
+    }
+}
+
+/// the merge rule yields a well-formed region
+pub proof fn lemma_mr_merged_ok<T: AbstractDomain + SizedDomain + HasTop>(a: Map<i64, T>, b: Map<i64, T>)
+    requires mr_domain_ok::<T>(), mr_cells_ok(a), mr_cells_ok(b), mr_in_range(a), mr_in_range(b),
+    ensures mr_cells_ok(mr_merged(a, b)), mr_in_range(mr_merged(a, b)),
+{
+    let r = mr_merged(a, b);
+    assert forall |k: i64| #[trigger] r.contains_key(k) implies
+        !r[k].is_top_spec() && r[k].bytesize_spec() > 0
+        && r[k].bytesize_spec() == (if a.contains_key(k) { a[k].bytesize_spec() } else { b[k].bytesize_spec() })
+        && k + r[k].bytesize_spec() <= i64::MAX by {
+        assert(mr_merge_keeps(a, b, k));
+    }
+    assert forall |k1: i64, k2: i64| #[trigger] r.contains_key(k1) && #[trigger] r.contains_key(k2) && k1 < k2
+        implies k1 + r[k1].bytesize_spec() <= k2 by {
+        assert(mr_merge_keeps(a, b, k1)); assert(mr_merge_keeps(a, b, k2));
+        if a.contains_key(k1) && b.contains_key(k1) {
+        } else if a.contains_key(k1) {
+            if !a.contains_key(k2) { assert(!mr_cell_meets(b, k2, k1 as int, mr_size(a[k1]))); }
+        } else {
+            if !b.contains_key(k2) { assert(!mr_cell_meets(a, k2, k1 as int, mr_size(b[k1]))); }
+        }
+    }
+}
